@@ -292,3 +292,45 @@ def run(ctx):
             ctx.check('C19.VS1', r is None, f.name, 'compdb:edge-without-inputs-printed', f.where(e),
                       '%s prints an edge (and its separating comma) only if inputs_ is non-empty' % f.name)
     ctx.floor('C19.VS1', 12)
+    check_tool_dispatch_order(ctx)
+
+
+def check_tool_dispatch_order(ctx):
+    """C19.EF3: no tool is started behind something that runs commands."""
+    from model import mentions_field as _mf
+    prog = ctx.prog
+    ctx.rule('C19.EF3', 'O', 'in real_main every dispatch of a tool (the call through Tool::func) comes before the manifest regeneration and '
+             'before the build: no path leads from NinjaMain::RebuildManifest / RunBuild - which run commands and write the logs - to a '
+             'tool invocation, so a query tool never triggers a build step')
+    rm = prog.fn('real_main')
+    tools = [e for e in rm.events('call') if e.get('name') is None and _mf(e.get('callee'), 'Tool::func')]
+    runners = [e for e in rm.events('call') if e.get('name') in ('NinjaMain::RebuildManifest', 'NinjaMain::RunBuild')]
+    ctx.check('C19.EF3', len(tools) >= 3 and len(runners) >= 2, rm.name, 'tool-dispatch:sites', rm.loc,
+              '%d tool dispatch sites, %d command-running calls found in real_main' % (len(tools), len(runners)))
+    # within one pass of the start-up loop: the back edges (re-parse after a regenerated manifest) start a new pass, in which a
+    # tool is dispatched - or not - before anything is run again
+    back, color = set(), {}
+    stack = [(rm.entry, iter(rm.succ(rm.entry)))]
+    color[rm.entry] = 1
+    while stack:
+        b, it = stack[-1]
+        adv = False
+        for s2 in it:
+            if color.get(s2) == 1:
+                back.add((b, s2))
+            elif s2 not in color:
+                color[s2] = 1
+                stack.append((s2, iter(rm.succ(s2))))
+                adv = True
+                break
+        if not adv:
+            color[b] = 2
+            stack.pop()
+    for t in tools:
+        for r in runners:
+            # (a re-parse after a regenerated manifest starts the loop again: the path must not pass the exit of the process,
+            # but it may not reach a tool either - after a regeneration run the tool would see logs the build just wrote)
+            p = rm.find_path(r, lambda x: x is t, sensitive=False, edge_ok=lambda b, i, s2: (b, s2) not in back)
+            ctx.check('C19.EF3', p is None, rm.name, 'tool-dispatch:after:%s' % r['name'].split('::')[-1], rm.where(t),
+                      'the tool dispatch at line %s is not reachable from %s' % (t.get('line'), r['name']), witness=None if p is None else {'blocks': p[0]})
+    ctx.floor('C19.EF3', 6)
